@@ -17,6 +17,7 @@ mod misc;
 mod sched;
 mod purity;
 mod front;
+mod watch;
 
 #[global_allocator]
 static GLOBAL: leak::Counting = leak::Counting;
@@ -105,6 +106,12 @@ fn main() {
     if tier != "quick" && tier != "thorough" {
         usage();
     }
+    let sprop: &'static str = ["C01", "C02", "C03", "C04", "C05", "C06", "C07", "C08", "C09", "C10", "C11", "C12", "C13", "C14", "C15", "C16", "C17", "C18"]
+        .iter()
+        .find(|p| **p == prop)
+        .copied()
+        .unwrap_or("C??");
+    watch::start(sprop, tier.to_string(), if tier == "quick" { 45 } else { 180 });
     let code = match prop {
         "C01" | "C02" | "C03" | "C05" | "C17" | "C04" | "C06" | "C10" => checks_e1::check(prop, tier),
         "C07" => purity::c07(tier),
